@@ -85,11 +85,18 @@ class InProcWorker:
 
 
 def _mk_app():
-    app = BM.Bromelia.__new__(BM.Bromelia)
-    app.routes, app._routes, app.sessions = {}, {}, {}
-    app.testing_answer = None
-    app.request_threshold, app.answer_threshold, app.send_threshold = _Barrier(), _Barrier(), _Barrier()
-    app.request_id = app.answer_id = 0
+    # the REAL constructor builds the object (whatever attributes the current tree keeps on it); only its file I/O is stubbed
+    # and every threading.Barrier it created is replaced by the stand-in, under whatever attribute name
+    import threading
+    keep = (BM._convert_file_to_config, BM.get_app_name)
+    BM._convert_file_to_config, BM.get_app_name = (lambda f, g: []), (lambda f: "app")
+    try:
+        app = BM.Bromelia()
+    finally:
+        BM._convert_file_to_config, BM.get_app_name = keep
+    for k, v in list(vars(app).items()):
+        if isinstance(v, threading.Barrier):
+            setattr(app, k, _Barrier())
     workers = [InProcWorker(0), InProcWorker(1)]
     app.associations = {APPS[0]: workers[0], APPS[1]: workers[1]}
     app.recv_queues = []
